@@ -139,6 +139,13 @@ def registered_suffix(pid):
                  "to the hand model for all inputs (Proofs/Tie_*.lean); each tie is an obligation of this check: a semantic edit of one of these functions breaks a proof deterministically "
                  "(or leaves the translated subset, which breaks it too), a behaviour-preserving rewrite does not." % ", ".join(funcs))
         tech += " + function-level translation ties"
+        text += (" The translators' TRUSTED PRIMITIVES that are plain str/list/dict/sort/date/re.sub functions are compared with CPython on every run of this check "
+                 "(driver op prim, harness/props/prims.py).")
+    if pid in ("C04", "C06", "C13", "C20"):
+        text += (" LEGACY ENGINE END TO END (harness/props/v1e2e.py): real `update --dry` and `update` on generated legacy projects (renderings that get shorter, several "
+                 "patterns per file and line, all line endings, BOM, toml and setup.cfg, a pattern without a match) against an independently built expectation.")
+    if pid == "C16":
+        text += " The model-side matcher groupsOf (proved to satisfy the hypothesis SearchOk of the Version.__init__ ties) is compared with the real VERSION_PATTERN regex (op pep_groups)."
     return text, tech
 
 
